@@ -81,13 +81,9 @@ theorem qdSel_ren (cfg : Cfg) (v : Votes) (n : Nat) (prev maxS : IMap) :
     rw [awardOf_ren σ hσ]
 
 omit hσ in
-theorem qdZeroDiv_ren (cfg : Cfg) (v : Votes) (n : Nat) : qdZeroDiv cfg (renVotes σ v) n = qdZeroDiv cfg v n := by
-  unfold qdZeroDiv
+theorem qdRefused_ren (cfg : Cfg) (v : Votes) (n : Nat) : qdRefused cfg (renVotes σ v) n = qdRefused cfg v n := by
+  unfold qdRefused
   rw [sumVals_ren]
-  congr 1
-  unfold renVotes
-  rw [List.any_map]
-  rfl
 
 /-- **QuotaDistributor: renaming equivariance** (policies `error` and `ignore`) -/
 theorem quotaDistribute_ren (cfg : Cfg) (hpol : cfg.onOver ≠ .subtract) (v : Votes) (hnd : (v.map (·.1)).Nodup)
@@ -95,7 +91,7 @@ theorem quotaDistribute_ren (cfg : Cfg) (hpol : cfg.onOver ≠ .subtract) (v : V
     quotaDistribute cfg (renVotes σ v) n (renI σ prev) (renI σ maxS) =
       (quotaDistribute cfg v n prev maxS).map (renSel σ) := by
   rw [quotaDistribute_form cfg _ n _ _ (keys_nodup_ren σ hσ v hnd), quotaDistribute_form cfg v n prev maxS hnd,
-    qdZeroDiv_ren, qdSel_ren σ hσ]
+    qdRefused_ren, qdSel_ren σ hσ]
   split
   · rfl
   · unfold applyPolicy
